@@ -59,6 +59,15 @@ def gen_rule_for(rng, world, name, depth=None):
         if rng.random() < 0.15:
             return ['paren', ['rule', succ[0]]]   # "(rule:new)": same alias
         return ['rule', succ[0]]
+    if succ and rng.random() < 0.1:
+        # an old-name override that happens to restate a successor's NEW
+        # default (possibly in another spelling) is an override like any
+        # other: it governs
+        pick = rng.choice(succ)
+        d = [d for d in world['defaults'] if d['name'] == pick][0]
+        a = copy.deepcopy(d['ast'])
+        if not (rast.refs(a) - set(_ref_pool(world, name))):
+            return ['paren', a] if rng.random() < 0.4 else a
     if succ and rng.random() < 0.12:
         d = [d for d in world['defaults'] if d['name'] == succ[0]][0]
         if rng.random() < 0.5:
@@ -221,6 +230,9 @@ def gen_layout(rng, w, flavour):
     c['debug_logging'] = rng.random() < 0.25
     c['creds_as_context'] = rng.random() < 0.25
     c['use_authorize'] = rng.random() < 0.25
+    # decisions asked with do_raise=True: a denial (or a scope mismatch)
+    # leaves enforce() by exception
+    c['do_raise'] = rng.random() < 0.25
     c['via'] = rng.choice(('config_dir', 'config_file'))
     if flavour == 'c09':
         pf = {'how': rng.choice(('untouched', 'set_defaults', 'config_file',
@@ -241,6 +253,11 @@ def gen_layout(rng, w, flavour):
              'fallback': True, 'ctor': None},
             {'how': 'untouched', 'value': 'policy.yaml', 'fallback': False,
              'ctor': 'ctor.yaml'}))
+    pf = dict(pf)
+    if rng.random() < 0.2 and (pf['ctor'] or pf['how'] in (
+            'set_override', 'config_file', 'set_defaults')):
+        # the policy file named by its absolute path
+        pf['absolute'] = True
     c['pf'] = pf
     w['conf'] = c
 
@@ -375,6 +392,8 @@ def gen_ops(rng, w, n=None, mix=None, bias=None, main_bias=0.35,
     # rewrites restore one of them byte for byte, e.g. a file deleted and
     # re-created by a config-management run
     held = {p: [(f['rules'], f['style'])] for p, f in w['files'].items()}
+    links = sorted(p for p, f in w['files'].items()
+                   if f.get('symlink') and p in paths)
     for _ in range(n):
         k = rng.choices(kinds, cum)[0]
         if k in ('load', 'force', 'check'):
@@ -386,6 +405,8 @@ def gen_ops(rng, w, n=None, mix=None, bias=None, main_bias=0.35,
         p = paths[0] if rng.random() < main_bias else rng.choice(paths)
         if path_bias and rng.random() < path_bias[1]:
             p = path_bias[0]
+        elif links and rng.random() < 0.2:
+            p = rng.choice(links)      # edit through a symbolic link
         op = {'op': k, 'path': p, 'dt': rng.choice(DTS)}
         if k in ('write', 'replace'):
             if held.get(p) and rng.random() < 0.25:
@@ -571,9 +592,12 @@ class DiskSim:
         self.model = Model(world)
         self.probes = probes_for(world)
         self.counters = {}
-        for k in ('debug_logging', 'creds_as_context', 'use_authorize'):
+        for k in ('debug_logging', 'creds_as_context', 'use_authorize',
+                  'do_raise'):
             if world['conf'].get(k):
                 self.counters['knob:' + k] = 1
+        if world['conf']['pf'].get('absolute'):
+            self.counters['knob:policy_file_absolute_path'] = 1
         if 'flag:f1' in world['roles']:
             self.counters['knob:custom_check_class'] = 1
         for rel in world['mkdirs']:
@@ -598,7 +622,7 @@ class DiskSim:
         self._conf_text = None
         lines = []
         if pf['how'] == 'config_file':
-            lines.append('policy_file = %s' % pf['value'])
+            lines.append('policy_file = %s' % self.pf_value())
         if world['conf']['dirs_via'] == 'file':
             for d in world['conf']['policy_dirs']:
                 lines.append('policy_dirs = %s' % self.cfg_dir(d))
@@ -608,6 +632,15 @@ class DiskSim:
 
     def hit(self, k, n=1):
         self.counters[k] = self.counters.get(k, 0) + n
+
+    def pf_value(self, name=None):
+        """the policy_file value as configured: relative to the config
+        directory, or the same file by its absolute path"""
+        pf = self.w['conf']['pf']
+        v = name or pf['value']
+        if pf.get('absolute') and v != 'policy.yaml':
+            return self.abs('etc/' + v)
+        return v
 
     def abs(self, rel):
         return self.root + '/' + rel
@@ -638,11 +671,11 @@ class DiskSim:
         conf(args=args, project='verifsim', default_config_files=[],
              default_config_dirs=[])
         if pf['how'] == 'set_defaults':
-            opts.set_defaults(conf, policy_file=pf['value'])
+            opts.set_defaults(conf, policy_file=self.pf_value())
         else:
             opts.set_defaults(conf)
         if pf['how'] == 'set_override':
-            conf.set_override('policy_file', pf['value'],
+            conf.set_override('policy_file', self.pf_value(),
                               group='oslo_policy')
         if c['dirs_via'] == 'override':
             conf.set_override('policy_dirs',
@@ -666,7 +699,7 @@ class DiskSim:
         pf = self.w['conf']['pf']
         conf = self.build_conf()
         if pf['ctor']:
-            kw.setdefault('policy_file', pf['ctor'])
+            kw.setdefault('policy_file', self.pf_value(pf['ctor']))
         if not pf['fallback']:
             kw.setdefault('fallback_to_json_file', False)
         e = policy.Enforcer(conf, **kw)
@@ -752,7 +785,14 @@ class DiskSim:
         if name.startswith('@tree:'):
             name = build_check(self.w['trees'][int(name[6:])])
         try:
-            r = bool(fn(name, {}, creds))
+            if c.get('do_raise'):
+                from oslo_policy import policy
+                try:
+                    r = bool(fn(name, {}, creds, do_raise=True))
+                except (policy.PolicyNotAuthorized, policy.InvalidScope):
+                    r = False       # a denial delivered as an exception
+            else:
+                r = bool(fn(name, {}, creds))
         except Exception as ex:       # noqa - the outcome is what we record
             r = 'EXC:' + type(ex).__name__
         return r
